@@ -357,12 +357,14 @@ def run(rep: Report, tier: str):
     rep.rule("C03.body-chain", "appended statements reach the Module unfiltered; fresh interpreter per decompilation", 4)
     rep.assume("Lib/pickle.py semantics of the call-/import-making opcodes (which operand is the callee / the arguments), frozen in CALL_SPEC / IMPORT_SPEC")
     rep.assume("same callee/arguments is decided as provenance of the Call's fields from the VM operands, not value equality (NEWOBJ is emitted as cls(*args) where the VM does cls.__new__(cls, *args))")
-    sums = all_summaries(repo)
-    rep.units = {"opcode_classes": len(sums), "paths": sum(len(s.paths) for s in sums)}
-    check_emit(repo, rep, sums)
-    check_no_lost_call(repo, rep, sums)
-    check_refuse(repo, rep, sums)
-    check_body_chain(repo, rep)
+    with rep.part("opcode summaries"):  # a handler outside the abstract interpreter's model leaves these undecided, not the worlds below
+        sums = all_summaries(repo)
+        rep.units = {"opcode_classes": len(sums), "paths": sum(len(s.paths) for s in sums)}
+        check_emit(repo, rep, sums)
+        check_no_lost_call(repo, rep, sums)
+        check_refuse(repo, rep, sums)
+    with rep.part("module body chain"):
+        check_body_chain(repo, rep)
 
     # interpreted last: the rules above stand on their own if the decompiler cannot be interpreted over an input
     from ..vmworlds import C03_KEYS, report as _vm_report
